@@ -5,7 +5,7 @@
 cd /verif
 tier=${1:-quick}
 filter=${2:-.}
-out=/verif/seeded/RESULTS.md
+out=${SEED_RESULTS:-/verif/seeded/RESULTS.md}
 declare -A ALSO=(
   [C05-ws-init-timeout-reader-leak]="C11"
   [C12-writejson-pooled-buffer]="C07"
@@ -17,6 +17,10 @@ declare -A ALSO=(
   [C04-semaphore-slot-leak-on-element-panic]="C05"
   [C04-deferred-invalids-on-parent]="C13"
   [C15-querycache-key-collapses-whitespace]="C07"
+  [C07-collectfields-reuses-cached-selection-slice]="C06"
+  [C07-ws-read-loop-message-hoisted]="C11"
+  [C16-mutators-run-in-reverse-order]="C03"
+  [C10-cache-before-validation-recover-hook]="C03"
 )
 echo "# Seeded changes vs. the checks ($tier tier, $(date -u +%FT%TZ), /repo $(git -C /repo log --format=%h -1))" > $out
 echo >> $out
